@@ -205,13 +205,15 @@ func (sp *SAMLServiceProvider) decryptAssertions(el *etree.Element) error {
 			return fmt.Errorf("unable to create element from decrypted assertion bytes: %v", err)
 		}
 
-		// Replace the original encrypted assertion with the decrypted one.
+		// Replace the original encrypted assertion with the decrypted one, at the same
+		// position: the order of the assertions is the order the IdP gave them.
+		index := encryptedElement.Index()
 		if el.RemoveChild(encryptedElement) == nil {
 			// Out of an abundance of caution, make sure removed worked
 			panic("unable to remove encrypted assertion")
 		}
 
-		el.AddChild(doc.Root())
+		el.InsertChildAt(index, doc.Root())
 		return nil
 	}
 
